@@ -193,7 +193,7 @@ class World:
             from sympde.topology.space import VectorFunction
             cid = min(j for j, g in enumerate(self.fns) if g == f)
             out.append({"name": str(f), "vec": isinstance(f, VectorFunction), "ldim": int(f.ldim), "id": cid,
-                        "space": self.case["fns"][i]["space"]})
+                        "space": [k for k, sp in enumerate(self.spaces) if sp is f.space][0]})
         return out
 
     # ---- user-level lhs
